@@ -6,6 +6,9 @@ from concurrent.futures import ThreadPoolExecutor
 ROOT = os.path.dirname(os.path.dirname(os.path.abspath(__file__)))
 REPO = os.environ.get("REBOUND_REPO", "/repo")
 LEAN = os.path.join(ROOT, "lean")
+# evidence/ and replays/ are written below OUT (default: /verif).  Seeded-bug runs redirect it
+# so that the committed evidence always comes from runs against the unchanged /repo.
+OUT = os.environ.get("VERIF_OUT", ROOT)
 ACCEPTED_AXIOMS = {"propext", "Classical.choice", "Quot.sound"}
 CFLAGS = ["-O3", "-std=c99", "-fPIC", "-fstrict-aliasing", "-Wno-unknown-pragmas", "-w",
           "-D_GNU_SOURCE", "-DLIBREBOUND", "-DSERVER", "-ffp-contract=off",
@@ -400,7 +403,7 @@ class Check:
             if key not in [k for k, _ in self.known_hit]:
                 self.known_hit.append((key, e["what"]))
             return False
-        path = os.path.join(ROOT, "replays", "%s-%d-%d.json" % (self.pid, self.seed, len(self.violations)))
+        path = os.path.join(OUT, "replays", "%s-%d-%d.json" % (self.pid, self.seed, len(self.violations)))
         os.makedirs(os.path.dirname(path), exist_ok=True)
         with open(path, "w") as f:
             json.dump({"property": self.pid, "key": key, "what": what, "seed": self.seed,
@@ -422,10 +425,10 @@ class Check:
         if self.violations:
             rc = 1
             for what, path, _ in self.violations[:1]:
-                print("VIOLATION property=%s replay=%s" % (self.pid, os.path.relpath(path, ROOT)))
+                print("VIOLATION property=%s replay=%s" % (self.pid, os.path.relpath(path, ROOT) if OUT == ROOT else path))
         elif self.broken:
             rc = 1
-            path = os.path.join(ROOT, "replays", "%s-%d-broken.json" % (self.pid, self.seed))
+            path = os.path.join(OUT, "replays", "%s-%d-broken.json" % (self.pid, self.seed))
             os.makedirs(os.path.dirname(path), exist_ok=True)
             with open(path, "w") as f:
                 json.dump({"property": self.pid, "seed": self.seed, "tier": self.tier,
@@ -433,14 +436,14 @@ class Check:
                            "detail": getattr(self, "_corr_detail", None),
                            "note": "the search for a failing input on the real code found none within its budget"},
                           f, indent=1, default=str)
-            print("VIOLATION property=%s replay=%s no-failing-input-found" % (self.pid, os.path.relpath(path, ROOT)))
+            print("VIOLATION property=%s replay=%s no-failing-input-found" % (self.pid, os.path.relpath(path, ROOT) if OUT == ROOT else path))
         ev = {"property_id": self.pid, "tier": self.tier, "seed": self.seed, "level": self.level,
               "coverage": self.cov, "assumptions": self.assumptions,
               "wall_s": round(time.time() - self.t0, 2),
               "violations": len(self.violations) + (1 if (self.broken and not self.violations) else 0)}
         ev["coverage"]["known_findings_reproduced"] = [k for k, _ in self.known_hit]
-        os.makedirs(os.path.join(ROOT, "evidence"), exist_ok=True)
-        with open(os.path.join(ROOT, "evidence", self.pid + ".json"), "w") as f:
+        os.makedirs(os.path.join(OUT, "evidence"), exist_ok=True)
+        with open(os.path.join(OUT, "evidence", self.pid + ".json"), "w") as f:
             json.dump(ev, f, indent=1, default=str)
         self.log("done rc=%d evaluations=%d distinct=%d" % (rc, self.cov["evaluations"], self.cov["distinct_nontrivial"]))
         return rc
